@@ -5,6 +5,7 @@ package main
 
 import (
 	"bytes"
+	"encoding/binary"
 	"encoding/json"
 	"fmt"
 	"sort"
@@ -21,6 +22,7 @@ import (
 	"github.com/nspcc-dev/neo-go/pkg/neotest/chain"
 	"github.com/nspcc-dev/neo-go/pkg/encoding/bigint"
 	"github.com/nspcc-dev/neo-go/pkg/smartcontract"
+	"github.com/nspcc-dev/neo-go/pkg/smartcontract/callflag"
 	"github.com/nspcc-dev/neo-go/pkg/smartcontract/manifest"
 	"github.com/nspcc-dev/neo-go/pkg/smartcontract/nef"
 	"github.com/nspcc-dev/neo-go/pkg/vm/opcode"
@@ -41,16 +43,45 @@ type env struct {
 	neoID  int32
 	polID  int32
 	mgmtID int32
+	oraID  int32
 	nonce  uint32
 	store  *storage.MemoryStore
 	single neotest.SingleSigner // the committee member's own account (the registered candidate)
+	staleSeen bool // the shape of the finding blocked-list-stale-index (fixed by cf4871f) occurred in this chain: a divergence of the blocked-accounts cache is reported under that key
 }
 
 // nonces are per-chain counters (neotest.Nonce is a process-wide counter: fine too, but this keeps
 // a case independent of the cases before it).
 func (v *env) nextNonce() uint32 { v.nonce++; return v.nonce + 1000 }
 
-var interp = buildInterp()
+// the interpreter code of the two classes of contracts: 0,1 (method tokens of natives only) and 2,3 (also tokens
+// of `run` of contracts 0 and 1); built once, when the committee (the deployer) and the native hashes are known
+var interpCodes [numContracts]*interpCode
+var interpNames [numContracts]string
+
+type natTokSpec struct {
+	h      func(w *world) util.Uint160
+	method string
+	n      int
+}
+
+var natTokSpecs = []natTokSpec{
+	{func(w *world) util.Uint160 { return w.gas }, "transfer", 4}, {func(w *world) util.Uint160 { return w.neo }, "transfer", 4},
+	{func(w *world) util.Uint160 { return w.neo }, "vote", 2}, {func(w *world) util.Uint160 { return w.neo }, "registerCandidate", 1},
+	{func(w *world) util.Uint160 { return w.neo }, "unregisterCandidate", 1},
+	{func(w *world) util.Uint160 { return w.policy }, "setFeePerByte", 1}, {func(w *world) util.Uint160 { return w.policy }, "blockAccount", 1},
+	{func(w *world) util.Uint160 { return w.policy }, "unblockAccount", 1},
+	{func(w *world) util.Uint160 { return w.policy }, "setWhitelistFeeContract", 4}, {func(w *world) util.Uint160 { return w.policy }, "removeWhitelistFeeContract", 3},
+	{func(w *world) util.Uint160 { return w.mgmt }, "deploy", 2}, {func(w *world) util.Uint160 { return w.mgmt }, "update", 2},
+	{func(w *world) util.Uint160 { return w.mgmt }, "destroy", 0}, {func(w *world) util.Uint160 { return w.roleMgmt }, "designateAsRole", 2},
+	{func(w *world) util.Uint160 { return w.oracle }, "request", 5}, {func(w *world) util.Uint160 { return w.oracle }, "finish", 0},
+	{func(w *world) util.Uint160 { return w.notary }, "lockDepositUntil", 2}, {func(w *world) util.Uint160 { return w.notary }, "withdraw", 2},
+}
+
+// flag sets of the method tokens for `run` of contracts 0 and 1
+var conTokFlags = []int{15, 5, 7}
+
+func tokKey(h util.Uint160, method string, n int) string { return fmt.Sprintf("%s.%s/%d", h.StringLE(), method, n) }
 
 // fixed node keys for RoleManagement.designateAsRole
 var nodeKeyA, nodeKeyB = mustKey("02b3622bf4017bdfe317c58aed5f4c753f206b7db896046fa7d774bbc4bf7f8dc2"), mustKey("02103a7f7dd016558597f7960d27c516a4394fd968b9e65155eb4b013e4040406e")
@@ -74,6 +105,9 @@ func newEnv() *env {
 	v.w.candKey = v.single.Account().PublicKey().Bytes()
 	v.w.roleMgmt = e.NativeHash(tb, nativenames.Designation)
 	v.w.notary = e.NativeHash(tb, nativenames.Notary)
+	v.w.oracle = e.NativeHash(tb, nativenames.Oracle)
+	v.oraID = e.NativeID(tb, nativenames.Oracle)
+
 	v.w.nodeSets = map[int][]any{1: {nodeKeyA}, 2: {nodeKeyA, nodeKeyB}}
 	v.w.gas = e.NativeHash(tb, nativenames.Gas)
 	v.w.neo = e.NativeHash(tb, nativenames.Neo)
@@ -106,10 +140,76 @@ func newEnv() *env {
 		}
 		v.w.auxHash[d] = state.CreateContractHash(v.sender.ScriptHash(), ne.Checksum, m.Name)
 	}
+	// method tokens (static calls, CALLT): natives for every contract, `run` of contracts 0 and 1 for contracts 2 and 3
+	var toksA []nef.MethodToken
+	v.w.natTok = map[string]int{}
+	for _, sp := range natTokSpecs {
+		h := sp.h(&v.w)
+		cs := bc.GetContractState(h)
+		if cs == nil {
+			panic("native contract state not found")
+		}
+		md := cs.Manifest.ABI.GetMethod(sp.method, sp.n)
+		if md == nil {
+			panic("native method not found: " + sp.method)
+		}
+		v.w.natTok[tokKey(h, sp.method, sp.n)] = len(toksA)
+		toksA = append(toksA, nef.MethodToken{Hash: h, Method: sp.method, ParamCount: uint16(sp.n),
+			HasReturn: md.ReturnType != smartcontract.VoidType, CallFlag: callflag.All})
+	}
+	if interpCodes[0] == nil {
+		// contract 0: no hook; contract 1: the reward hook (it names contract 0, whose hash must sort before
+		// contract 1's own — the order of Policy's blocked-accounts list — so the name of contract 1 is salted);
+		// contracts 2,3: tokens of `run` of contracts 0 and 1
+		c0 := buildInterp(len(toksA), nil)
+		c0.tokens = toksA
+		interpCodes[0], interpNames[0] = &c0, "interp0"
+		ne0, m0 := interpContract(interpNames[0], c0)
+		h0 := state.CreateContractHash(comm.ScriptHash(), ne0.Checksum, m0.Name)
+		v.w.hashes[0] = h0
+		c1 := buildInterp(len(toksA), v.w.encList(rewardProgram(), 1))
+		c1.tokens = toksA
+		interpCodes[1] = &c1
+		var h1 util.Uint160
+		for salt := 0; ; salt++ {
+			interpNames[1] = fmt.Sprintf("interp1_%d", salt)
+			ne1, m1 := interpContract(interpNames[1], c1)
+			h1 = state.CreateContractHash(comm.ScriptHash(), ne1.Checksum, m1.Name)
+			if h0.Compare(h1) < 0 {
+				break
+			}
+		}
+		toksB := append([]nef.MethodToken{}, toksA...)
+		for _, hc := range []util.Uint160{h0, h1} {
+			for _, fl := range conTokFlags {
+				toksB = append(toksB, nef.MethodToken{Hash: hc, Method: "run", ParamCount: 1, HasReturn: true, CallFlag: callflag.CallFlag(fl)})
+			}
+		}
+		b := buildInterp(len(toksB), nil)
+		b.tokens = toksB
+		interpCodes[2], interpCodes[3] = &b, &b
+		interpNames[2], interpNames[3] = "interp2", "interp3"
+	}
+	v.w.conTok = map[[2]int]int{}
+	for c := 0; c < 2; c++ {
+		for j, fl := range conTokFlags {
+			v.w.conTok[[2]int{c, fl}] = len(toksA) + c*len(conTokFlags) + j
+		}
+	}
+	for i := 0; i < numContracts; i++ {
+		for k := 0; k < numNefs; k++ {
+			ne := nefVariant(*v.code(i), k)
+			b, err := ne.Bytes()
+			if err != nil {
+				panic(err)
+			}
+			v.w.nefs[i][k], v.w.nefSums[i][k] = b, ne.Checksum
+		}
+	}
 	// deploy the interpreter contracts in one block
 	var txs []*transaction.Transaction
 	for i := 0; i < numContracts; i++ {
-		ne, m := interpContract(fmt.Sprintf("interp%d", i), interp)
+		ne, m := interpContract(interpNames[i], *v.code(i))
 		h := state.CreateContractHash(comm.ScriptHash(), ne.Checksum, m.Name)
 		v.w.hashes[i] = h
 		rawM, err := json.Marshal(m)
@@ -149,9 +249,12 @@ func newEnv() *env {
 
 func (v *env) close() { v.tb.done() }
 
+// code: the interpreter code of contract i (0: plain; 1: with the reward hook; 2,3: with tokens of contracts 0,1).
+func (v *env) code(i int) *interpCode { return interpCodes[i] }
+
 // newTx builds a signed transaction with the given script, paid by the sender;
 // withCommittee adds the committee as a second (Global) signer.
-func (v *env) newTx(script []byte, sysFee int64, withCommittee bool) *transaction.Transaction {
+func (v *env) newTx(script []byte, sysFee int64, withCommittee bool, more ...neotest.Signer) *transaction.Transaction {
 	tx := transaction.New(script, 0)
 	tx.Nonce = v.nextNonce()
 	tx.ValidUntilBlock = v.bc.BlockHeight() + 1
@@ -159,7 +262,16 @@ func (v *env) newTx(script []byte, sysFee int64, withCommittee bool) *transactio
 	if withCommittee {
 		signers = append(signers, v.comm)
 	}
+	signers = append(signers, more...)
 	return v.e.SignTx(v.tb, tx, sysFee, signers...)
+}
+
+// planTx builds the transaction of a plan (committee witness, candidate key owner's witness as the plan needs).
+func (v *env) planTx(p txPlan, script []byte, fee int64) *transaction.Transaction {
+	if p.candWitness {
+		return v.newTx(script, fee, p.committee, v.single)
+	}
+	return v.newTx(script, fee, p.committee)
 }
 
 // ---------- observation ----------
@@ -171,6 +283,7 @@ type triple struct{ o, k, v int }
 type snapshot struct {
 	tr  []triple // the ledger state in the model's vocabulary (owner, key, value), sorted
 	odd []string // unexpected storage entries; native cache values that differ from storage
+	stale []string // blocked-accounts cache vs storage, once the shape of blocked-list-stale-index occurred (regression key)
 }
 
 var neoHolders = []int{0, 1, 2, 3, 6, 7}
@@ -253,13 +366,6 @@ func (v *env) snap(post bool) *snapshot {
 			add(rewardTab, a, int(r.Int64()))
 		}
 	}
-	if enr, err := v.bc.GetEnrollments(); err == nil {
-		for _, e := range enr {
-			if bytes.Equal(e.Key.Bytes(), v.w.candKey) && e.Votes.Sign() != 0 {
-				add(candTab, 0, int(e.Votes.Int64()))
-			}
-		}
-	}
 	if si := v.bc.GetStorageItem(v.neoID, []byte{1}); si != nil {
 		if n := bigint.FromBytes(si); n.Sign() != 0 {
 			add(votersTab, 0, int(n.Int64()))
@@ -270,6 +376,86 @@ func (v *env) snap(post bool) *snapshot {
 		if d := v.bc.GetUtilityTokenBalance(v.w.notary, v.w.hashes[i]); d.Sign() != 0 {
 			add(notaryTab, i, int(d.Int64()))
 		}
+	}
+	// Notary: till of every deposit
+	for i := 0; i < numContracts; i++ {
+		if d := v.bc.GetUtilityTokenBalance(v.w.notary, v.w.hashes[i]); d.Sign() != 0 {
+			add(tillTab, i, int(v.bc.GetNotaryDepositExpiration(v.w.hashes[i])))
+		}
+	}
+	// the persisting block's index is an input of the next block
+	if !post {
+		add(heightTab, 0, int(height)+1)
+	}
+	// NEO candidate record: [registered, votes]
+	if si := v.bc.GetStorageItem(v.neoID, append([]byte{33}, v.w.candKey...)); si != nil {
+		it, err := stackitem.Deserialize(si)
+		arr, ok := it.Value().([]stackitem.Item)
+		if err != nil || !ok || len(arr) != 2 {
+			s.odd = append(s.odd, "candidate record")
+		} else {
+			reg, _ := arr[0].TryBool()
+			votes, _ := arr[1].TryInteger()
+			if reg {
+				add(regTab, 0, 1)
+			} else if votes.Sign() == 0 {
+				s.odd = append(s.odd, "candidate record neither registered nor voted for")
+			}
+			if votes.Sign() != 0 {
+				add(candTab, 0, int(votes.Int64()))
+			}
+		}
+	}
+	// Oracle: next request id, pending requests (record vs id list per URL), GAS of the contract
+	if st := v.bc.GetStorageItem(v.oraID, []byte{9}); st != nil {
+		next := int(bigint.FromBytes(st).Int64())
+		if next != 0 {
+			add(oracleTab, 0, next)
+		}
+		listed := map[uint64]bool{}
+		v.bc.SeekStorage(v.oraID, []byte{6}, func(k, val []byte) bool { // prefixIDList + hash160(url) -> list of ids
+			it, err := stackitem.Deserialize(val)
+			arr, ok := it.Value().([]stackitem.Item)
+			if err != nil || !ok {
+				s.odd = append(s.odd, "oracle id list")
+				return true
+			}
+			for _, x := range arr {
+				bi, _ := x.TryInteger()
+				if listed[bi.Uint64()] {
+					s.odd = append(s.odd, fmt.Sprintf("oracle id %d listed twice", bi.Uint64()))
+				}
+				listed[bi.Uint64()] = true
+			}
+			return true
+		})
+		nreq := 0
+		for id := 0; id < next; id++ {
+			req, err := v.oracleRequest(uint64(id))
+			if err != nil {
+				if listed[uint64(id)] {
+					s.odd = append(s.odd, fmt.Sprintf("oracle id %d listed without request", id))
+				}
+				continue
+			}
+			nreq++
+			if !listed[uint64(id)] {
+				s.odd = append(s.odd, fmt.Sprintf("oracle request %d not in its id list", id))
+			}
+			u := -1
+			for i, url := range oracleURLs {
+				if req.URL == url {
+					u = i
+				}
+			}
+			add(oracleTab, 100+id, 10*u+v.accIndex(req.CallbackContract.BytesBE()))
+		}
+		if nreq != len(listed) {
+			s.odd = append(s.odd, fmt.Sprintf("oracle: %d requests, %d listed ids", nreq, len(listed)))
+		}
+	}
+	if g := v.bc.GetUtilityTokenBalance(v.w.oracle, util.Uint160{}); g.Sign() != 0 {
+		add(gasTab, oracleAcc, int(g.Int64()))
 	}
 	// Policy: fee per byte (cache vs storage), blocked list (cache vs storage), whitelisted fees
 	feePB := v.bc.FeePerByte()
@@ -282,7 +468,11 @@ func (v *env) snap(post bool) *snapshot {
 		inStorage := v.bc.GetStorageItem(v.polID, append([]byte{15}, h.BytesBE()...)) != nil
 		inCache := v.testInvoke(v.w.policy, "isBlocked", h).Value().(bool)
 		if inCache != inStorage {
-			s.odd = append(s.odd, fmt.Sprintf("blocked[%d] cache=%v storage=%v", a, inCache, inStorage))
+			if v.staleSeen {
+				s.stale = append(s.stale, fmt.Sprintf("blocked[%d] cache=%v storage=%v", a, inCache, inStorage))
+			} else {
+				s.odd = append(s.odd, fmt.Sprintf("blocked[%d] cache=%v storage=%v", a, inCache, inStorage))
+			}
 		}
 		if inCache {
 			add(blockTab, a, 1)
@@ -328,8 +518,21 @@ func (v *env) snap(post bool) *snapshot {
 		}
 		if cs == nil {
 			add(mgmtTab, 100+i, 1)
-		} else if cs.UpdateCounter != 0 {
-			add(mgmtTab, 200+i, int(cs.UpdateCounter))
+		} else {
+			if cs.UpdateCounter != 0 {
+				add(mgmtTab, 200+i, int(cs.UpdateCounter))
+			}
+			nv := -1
+			for k, sum := range v.w.nefSums[i] {
+				if cs.NEF.Checksum == sum {
+					nv = k
+				}
+			}
+			if nv < 0 {
+				s.odd = append(s.odd, fmt.Sprintf("contract[%d] has an unknown NEF", i))
+			} else if nv != 0 {
+				add(mgmtTab, 300+i, nv)
+			}
 		}
 	}
 	if st := v.bc.GetStorageItem(v.mgmtID, []byte{15}); st != nil {
@@ -351,6 +554,26 @@ func (v *env) snap(post bool) *snapshot {
 		return s.tr[a].k < s.tr[b].k
 	})
 	return s
+}
+
+// oracleRequest reads a pending Oracle request from storage.
+func (v *env) oracleRequest(id uint64) (*state.OracleRequest, error) {
+	k := make([]byte, 9)
+	k[0] = 7 // prefixRequest
+	binary.BigEndian.PutUint64(k[1:], id)
+	si := v.bc.GetStorageItem(v.oraID, k)
+	if si == nil {
+		return nil, fmt.Errorf("no request")
+	}
+	it, err := stackitem.Deserialize(si)
+	if err != nil {
+		return nil, err
+	}
+	req := new(state.OracleRequest)
+	if err := req.FromStackItem(it); err != nil {
+		return nil, err
+	}
+	return req, nil
 }
 
 func storeText(st []kv) string {
@@ -398,6 +621,12 @@ func (v *env) eventsOf(aer *state.AppExecResult, entry util.Uint160) ([]event, [
 		case n.Name == "Vote" && len(arr) == 4 && n.ScriptHash.Equals(v.w.neo):
 			b, _ := arr[0].TryBytes()
 			res = append(res, event{voteTab, v.accIndex(b)})
+		case n.Name == "CandidateStateChanged" && len(arr) == 3 && n.ScriptHash.Equals(v.w.neo):
+			reg, _ := arr[1].TryBool()
+			res = append(res, event{regTab, b2i(reg)})
+		case n.Name == "OracleRequest" && len(arr) == 4 && n.ScriptHash.Equals(v.w.oracle):
+			bi, _ := arr[0].TryInteger()
+			res = append(res, event{oracleTab, int(bi.Int64())})
 		case n.Name == "Designation" && len(arr) >= 2 && n.ScriptHash.Equals(v.w.roleMgmt):
 			bi, _ := arr[0].TryInteger()
 			res = append(res, event{roleTab, int(bi.Int64())})
